@@ -27,11 +27,10 @@ ENTRY = {
                 "whenever compile accepts a predicate, mask and validity equal the interpreter model's for every batch length (chunk/remainder bit packing proved a round trip for all "
                 "lengths), every NULL pattern and every float-arithmetic instance (C06_compile_correct); destination registers are fresh and below MAX_REGS (C06_regs_ssa); interpreter "
                 "NULL <=> some referenced column NULL (C06_null_strict_validity); IEEE comparison = total order exactly off NaN / two zeros, with kernel-checked witnesses for the "
-                "unchanged tree's f64 deviation. Tied to the code by correspondence incl. a QE_COMPILE=0 child process.",
+                "f64 deviation the tree had before fix 7400978. Tied to the code by correspondence incl. a QE_COMPILE=0 child process.",
         "design_ref": "DESIGN.md §6 C06",
         "level_note": "Trusted: Lean kernel; axioms propext/Classical.choice/Quot.sound; hand-written models of the compiler, eval_chunk and the interpreter (validated by correspondence "
-                      "only); translator for the four generated items; harness generators. The unchanged tree violates the property on NaN / -0.0 (finding C06-F1) until the "
-                      "proposed fix is committed.",
+                      "only); translator for the four generated items; harness generators. Finding C06-F1 (IEEE f64 comparison) was repaired in /repo by fix 7400978; its witnesses are replayed from corpus/C06 on every run.",
         "technique": "Lean 4 proof over executable model + translated definitions + differential correspondence with the Rust code",
     },
 }
